@@ -28,7 +28,7 @@ class C36(Check):
                            "ioflo.aio.tcp Server/Incomer/Client"],
                   "stub": ["socket module", "send-side packets (pre-packed bytes)"]}
     assumptions = ["no connection loss is injected while packets are queued (C25/C27 cover it): the property speaks of a connected peer; the only close is the orderly one of the epilogue, after the sender's last byte has left"]
-    required_probes = ["partial-send", "both-directions", "two-clients", "completed", "sender-closed-after-last-packet"]
+    required_probes = ["partial-send", "both-directions", "two-clients", "completed", "sender-closed-after-last-packet", "broadcast", "same-packet-queued-again"]
     quick_runs = 8000
     thorough_runs = 400000
     shrink_fields = ["schedule", "ops"]
@@ -41,6 +41,8 @@ class C36(Check):
         g = S.gen
         nc = g.choice([1, 1, 2])
         ops = [[g.choice(["c2s", "s2c"]), g.randrange(nc), g.choice([1, 2, 7, g.randint(1, 40)])] for _ in range(g.randint(1, 8))]
+        # the same packet object queued more than once: broadcast to every connection, or queued again for the same peer
+        ops = [(["bcast", 0, o[2]] if o[0] == "s2c" and g.random() < 0.15 else (o + ["again"] if g.random() < 0.15 else o)) for o in ops]
         s = S.sched
         sched = []
         for _ in range(s.randint(0, 60)):
@@ -66,7 +68,7 @@ class C36(Check):
         nc = plan["nclients"]
         if nc == 2:
             out.probe("two-clients")
-        if any(o[0] == "c2s" for o in plan["ops"]) and any(o[0] == "s2c" for o in plan["ops"]):
+        if any(o[0] == "c2s" for o in plan["ops"]) and any(o[0] in ("s2c", "bcast") for o in plan["ops"]):
             out.probe("both-directions")
         with world(out=out, cap=plan["cap"]) as net:
             rec_s = []           # (ca, packed) in the order the server stack delivered received packets
@@ -122,16 +124,27 @@ class C36(Check):
                 def queue_next():
                     if not ops:
                         return
-                    kind, k, n = ops.pop(0)
+                    op = ops.pop(0)
+                    kind, k, n = op[0], op[1], op[2]
                     k = k % nc
                     payload = (b"<%d|" % serial[0] + bytes((serial[0] * 31 + j) % 251 for j in range(n)))[:max(n, 4)]
                     serial[0] += 1
-                    if kind == "c2s":
-                        clients[k].transmit(FakePkt(payload))
-                        sent_c2s[k].extend(payload)
-                    else:
-                        srv.transmit(FakePkt(payload), cas[k])
-                        sent_s2c[k].extend(payload)
+                    pkt = FakePkt(bytearray(payload))       # real packets keep their packed form in a bytearray
+                    times = 2 if len(op) > 3 else 1         # "again": the same packet object queued twice for the same peer
+                    if times == 2:
+                        out.probe("same-packet-queued-again")
+                    for _ in range(times):
+                        if kind == "c2s":
+                            clients[k].transmit(pkt)
+                            sent_c2s[k].extend(payload)
+                        elif kind == "bcast":
+                            out.probe("broadcast")
+                            for kk in range(nc):
+                                srv.transmit(pkt, cas[kk])
+                                sent_s2c[kk].extend(payload)
+                        else:
+                            srv.transmit(pkt, cas[k])
+                            sent_s2c[k].extend(payload)
 
                 def received():
                     r_s = [b"".join(p for ca, p in rec_s if ca == cas[k]) + b"".join(bytes(p.packed) for p, ca in srv.rxPkts if ca == cas[k]) for k in range(nc)]
